@@ -330,7 +330,7 @@ def main():
         "notes": "See DESIGN.md (sections 1-10: plan; 11: what was built, defects repaired, seeded changes, final status per "
                  "property, trusted base). 35 'fix:' commits in /repo (each a genuine defect shown against the real code; the unedited "
                  "suite passes), listed in known_findings.json 'fixed'; two findings recorded and not repaired (C04 structural torn "
-                 "flush, C07 running rounded AVG pinned by the existing tests). 80 seeded changes under seeded/ (seven rounds, written "
+                 "flush, C07 running rounded AVG pinned by the existing tests). 88 seeded changes under seeded/ (eight rounds, written "
                  "by sub-agents that saw only the property text), each confirmed in a scratch worktree and detected by the quick check "
                  "of its property; tools/reseed.py re-runs round one against the current HEAD. Thorough tier: larger scopes, coqchk on "
                  "the property's files, Go statement coverage of the correspondence runs.",
